@@ -8,6 +8,13 @@ import (
 	"github.com/GuanceCloud/platypus/pkg/parser"
 )
 
+// literalNeighbours: statements placed before the judged literal in the same text (every second case has none)
+var literalNeighbours = []struct {
+	text string
+	n    int
+}{{"", 0}, {"w = 0x1f\n", 1}, {"", 0}, {"w = \"s\\n\\x41\"\n", 1}, {"", 0}, {"w = 1.5e3\nw2 = 0XFF\n", 2}, {"", 0}, {"w = [0xff, 'q', `id`, 007]\n", 1},
+	{"", 0}, {"w = '''m\nl'''\n", 1}, {"", 0}, {"w = 9223372036854775808\n", 1}, {"", 0}, {"w = inf\nw3 = nan\n", 2}, {"", 0}, {"w = true\nw4 = nil\n", 2}}
+
 func init() { register("replay-literals", replayLiterals) }
 
 // replay-literals <rows.ndjson> <judgements.ndjson>
@@ -71,7 +78,9 @@ func replayLiterals(args []string) (any, error) {
 			variants = []string{"", "-", "+"}
 		}
 		for _, sign := range variants {
-			src := "x = " + sign + spelled
+			// a literal denotes its value wherever it stands: alone in its text, or after other literals of every kind in the same text
+			nb := literalNeighbours[sum.Evaluations%len(literalNeighbours)]
+			src := nb.text + "x = " + sign + spelled
 			sum.Evaluations++
 			disturbParser()
 			ss, perr := parser.ParsePipeline("l.p", src)
@@ -92,12 +101,13 @@ func replayLiterals(args []string) (any, error) {
 				sum.miss(sig, detail)
 				continue
 			}
-			if len(ss) != 1 || ss[0].NodeType != ast.TypeAssignmentExpr || len(ss[0].AssignmentExpr().RHS) != 1 {
-				detail["problem"] = fmt.Sprintf("parsed as %d statements / not an assignment", len(ss))
+			wantStmts := 1 + nb.n
+			if len(ss) != wantStmts || ss[len(ss)-1].NodeType != ast.TypeAssignmentExpr || len(ss[len(ss)-1].AssignmentExpr().RHS) != 1 {
+				detail["problem"] = fmt.Sprintf("parsed as %d statements (want %d) / the last is not an assignment", len(ss), wantStmts)
 				sum.miss(sig, detail)
 				continue
 			}
-			rhs := ss[0].AssignmentExpr().RHS[0]
+			rhs := ss[len(ss)-1].AssignmentExpr().RHS[0]
 			switch j.J.V {
 			case "ok":
 				want := bytesOf(j.J.Bytes)
